@@ -19,8 +19,11 @@ use vcore::exp::{arb_exp, arb_opt_exp, exp_spec, is_expired, opt_exp_spec, ExpSp
 use vcore::{CaseCtx, Family, PropSpec, Tier, Violation};
 
 pub const N_ACTORS: u8 = 5;
-/// recipient indices: 0..N_ACTORS are the actors, N_ACTORS.. are invalid address strings
-pub const N_RCPT: u8 = N_ACTORS + 2;
+/// observed accounts: the actors (the only senders) plus the token contract's own address, which is a
+/// perfectly valid recipient, minter, spender and initial account
+pub const N_HOLDERS: u8 = N_ACTORS + 1;
+/// recipient indices: 0..N_HOLDERS are the observed accounts, N_HOLDERS.. are invalid address strings
+pub const N_RCPT: u8 = N_HOLDERS + 2;
 
 #[derive(Clone, Debug, Serialize, Deserialize, PartialEq)]
 pub enum Rel {
@@ -80,6 +83,11 @@ pub enum Op {
     BurnFrom { pair: Pair, amt: Amt },
     UpdateMinter { by: Who, new: Option<u8> },
     Advance { blocks: u8, secs: u16 },
+    /// calls that have nothing to do with balances, allowances or the minter role and must leave all of
+    /// them alone: what % 5 = 0 UpdateMarketing (texts), 1 UpdateMarketing (hand the marketing role to
+    /// actor `arg`), 2 UploadLogo (url), 3 UploadLogo (embedded svg), 4 a code upgrade: the stored cw2
+    /// version is set to an older >= 0.14 release (same layout) and `migrate` runs
+    Side { by: u8, what: u8, arg: u8 },
 }
 
 #[derive(Clone, Debug, Serialize, Deserialize, PartialEq)]
@@ -87,6 +95,9 @@ pub struct Init {
     pub accounts: Vec<(u8, u128)>,
     /// (minter, cap)
     pub mint: Option<(u8, Option<Cap>)>,
+    /// actor that holds the marketing role (None: no marketing info at instantiation)
+    #[serde(default)]
+    pub marketing: Option<u8>,
 }
 
 #[derive(Clone, Debug, Serialize, Deserialize, PartialEq)]
@@ -118,7 +129,7 @@ fn actor() -> impl Strategy<Value = u8> {
     0u8..N_ACTORS
 }
 fn rcpt() -> impl Strategy<Value = u8> {
-    prop_oneof![30 => 0u8..N_ACTORS, 1 => N_ACTORS..N_RCPT]
+    prop_oneof![30 => 0u8..N_ACTORS, 2 => Just(N_ACTORS), 1 => N_HOLDERS..N_RCPT]
 }
 
 fn amt() -> BoxedStrategy<Amt> {
@@ -162,14 +173,15 @@ struct Weights {
     upd_minter: u32,
     advance: u32,
     race: u32,
+    side: u32,
 }
 
 fn weights(prop: &str) -> Weights {
     match prop {
-        "C13" => Weights { transfer: 3, send: 1, burn: 6, mint: 12, incr: 2, decr: 1, tfrom: 1, sfrom: 1, bfrom: 2, upd_minter: 8, advance: 1, race: 0 },
-        "C02" => Weights { transfer: 4, send: 3, burn: 2, mint: 2, incr: 8, decr: 4, tfrom: 7, sfrom: 4, bfrom: 4, upd_minter: 1, advance: 5, race: 3 },
-        "C19" => Weights { transfer: 2, send: 1, burn: 1, mint: 2, incr: 8, decr: 6, tfrom: 6, sfrom: 3, bfrom: 4, upd_minter: 0, advance: 3, race: 1 },
-        _ => Weights { transfer: 6, send: 3, burn: 4, mint: 5, incr: 6, decr: 2, tfrom: 5, sfrom: 3, bfrom: 4, upd_minter: 1, advance: 2, race: 1 },
+        "C13" => Weights { transfer: 3, send: 1, burn: 6, mint: 12, incr: 2, decr: 1, tfrom: 1, sfrom: 1, bfrom: 2, upd_minter: 8, advance: 1, race: 0, side: 1 },
+        "C02" => Weights { transfer: 4, send: 3, burn: 2, mint: 2, incr: 8, decr: 4, tfrom: 7, sfrom: 4, bfrom: 4, upd_minter: 1, advance: 5, race: 3, side: 1 },
+        "C19" => Weights { transfer: 2, send: 1, burn: 1, mint: 2, incr: 8, decr: 6, tfrom: 6, sfrom: 3, bfrom: 4, upd_minter: 0, advance: 3, race: 1, side: 1 },
+        _ => Weights { transfer: 6, send: 3, burn: 4, mint: 5, incr: 6, decr: 2, tfrom: 5, sfrom: 3, bfrom: 4, upd_minter: 1, advance: 2, race: 1, side: 1 },
     }
 }
 
@@ -189,6 +201,7 @@ fn op_group(w: Weights) -> BoxedStrategy<Vec<Op>> {
         (w.bfrom, one((pair(), amt()).prop_map(|(pair, amt)| Op::BurnFrom { pair, amt }).boxed())),
         (w.upd_minter, one((who(), proptest::option::weighted(0.75, rcpt())).prop_map(|(by, new)| Op::UpdateMinter { by, new }).boxed())),
         (w.advance, one((0u8..4, 0u16..40).prop_map(|(blocks, secs)| Op::Advance { blocks, secs }).boxed())),
+        (w.side, one((actor(), 0u8..5, actor()).prop_map(|(by, what, arg)| Op::Side { by, what, arg }).boxed())),
         (w.race, (actor(), actor(), actor(), 1u128..200, 0u128..250, 0u128..250, exp_spec(), any::<bool>(), 0u8..3)
             .prop_map(|(owner, spender, to, grant, dec, draw, exp, dec_first, adv)| {
                 let g = Op::Increase { owner, spender, amt: Amt::Abs(grant), exp: Some(exp) };
@@ -220,8 +233,8 @@ fn init_strategy(prop: &str) -> BoxedStrategy<Init> {
         1 => edge_u128().prop_map(|k| Some(Cap::Abs(k))),
     ];
     let p_mint = if prop == "C13" { 0.92 } else { 0.7 };
-    (accounts, proptest::option::weighted(p_mint, (rcpt(), cap)))
-        .prop_map(|(accounts, mint)| Init { accounts, mint })
+    (accounts, proptest::option::weighted(p_mint, (rcpt(), cap)), proptest::option::weighted(0.6, actor()))
+        .prop_map(|(accounts, mint, marketing)| Init { accounts, mint, marketing })
         .boxed()
 }
 
@@ -250,7 +263,9 @@ pub fn case_strategy(prop: &str, tier: Tier) -> BoxedStrategy<Case> {
     let legacy = if prop == "C19" {
         proptest::option::weighted(0.4, legacy_strategy()).boxed()
     } else {
-        Just(None).boxed()
+        // an upgrade from a pre-0.14 release is a point in the token's life like any other: it is no owner's
+        // call, no spender's draw and no Mint, so balances, supply, allowances, minter and cap come through unchanged
+        proptest::option::weighted(0.12, legacy_strategy()).boxed()
     };
     (init_strategy(prop), legacy, 0u8..LEGACY_VERSIONS.len() as u8, ops).prop_map(|(init, legacy, legacy_version, ops)| Case { init, legacy, legacy_version, ops }).boxed()
 }
@@ -309,7 +324,8 @@ fn v(prop: &str, sig: &str, msg: String) -> Violation {
 impl World {
     fn new() -> World {
         let d = Direct::new();
-        let actors: Vec<Addr> = (0..N_ACTORS).map(|i| d.api.addr_make(&format!("actor{i}"))).collect();
+        let mut actors: Vec<Addr> = (0..N_ACTORS).map(|i| d.api.addr_make(&format!("actor{i}"))).collect();
+        actors.push(d.contract.clone());
         let mut rcpts: Vec<String> = actors.iter().map(|a| a.to_string()).collect();
         rcpts.push("x".to_string());
         rcpts.push(actors[0].to_string().to_uppercase());
@@ -493,6 +509,7 @@ enum Kind {
     SendFrom,
     BurnFrom,
     UpdateMinter,
+    Side,
 }
 
 #[derive(Clone, Debug)]
@@ -515,7 +532,7 @@ pub fn run_case(prop: &str, case: &Case, ctx: &mut CaseCtx) -> Result<(), Violat
     // ---------------- instantiate (or fabricate legacy image and migrate)
     let valid_list = {
         let mut seen = BTreeSet::new();
-        case.init.accounts.iter().all(|(i, _)| (*i as usize) < N_ACTORS as usize && seen.insert(*i))
+        case.init.accounts.iter().all(|(i, _)| (*i as usize) < N_HOLDERS as usize && seen.insert(*i))
     };
     let init_sum: Option<u128> = case.init.accounts.iter().try_fold(0u128, |s, (_, a)| s.checked_add(*a));
     let init_supply_hint = init_sum.unwrap_or(u128::MAX);
@@ -532,6 +549,8 @@ pub fn run_case(prop: &str, case: &Case, ctx: &mut CaseCtx) -> Result<(), Violat
     let mut drawn: BTreeMap<(usize, usize), Uint256> = BTreeMap::new();
     let mut migrated_pairs: BTreeSet<(usize, usize)> = BTreeSet::new();
     let mut migrated_modified: BTreeSet<(usize, usize)> = BTreeSet::new();
+    let mut legacy_cap: Option<u128> = None;
+    let mut legacy_total: u128 = 0;
 
     if let Some(legacy) = &case.legacy {
         // fabricated pre-0.14 image: balances = distinct valid part of init.accounts
@@ -554,6 +573,8 @@ pub fn run_case(prop: &str, case: &Case, ctx: &mut CaseCtx) -> Result<(), Violat
             }),
             _ => None,
         };
+        legacy_cap = mint.as_ref().and_then(|m| m.cap).map(|c| c.u128());
+        legacy_total = total;
         L_TOKEN_INFO
             .save(store, &LegacyTokenInfo { name: "Verif Token".into(), symbol: "VRF".into(), decimals: 6, total_supply: Uint128::new(total), mint })
             .unwrap();
@@ -588,7 +609,7 @@ pub fn run_case(prop: &str, case: &Case, ctx: &mut CaseCtx) -> Result<(), Violat
             decimals: 6,
             initial_balances: case.init.accounts.iter().map(|(i, a)| Cw20Coin { address: w.rcpts[*i as usize % N_RCPT as usize].clone(), amount: Uint128::new(*a) }).collect(),
             mint: minter_str.clone().map(|m| MinterResponse { minter: m, cap: cap_value.map(Uint128::new) }),
-            marketing: None,
+            marketing: case.init.marketing.map(|m| cw20_base::msg::InstantiateMarketingInfo { project: Some("verif".into()), description: None, marketing: Some(w.actors[m as usize % N_ACTORS as usize].to_string()), logo: None }),
         };
         let info = Direct::info(&w.actors[0], &[]);
         let r = w.d.tx(|deps, env| cw20_base::contract::instantiate(deps, env, info, msg));
@@ -604,10 +625,27 @@ pub fn run_case(prop: &str, case: &Case, ctx: &mut CaseCtx) -> Result<(), Violat
             ctx.flag("accepted_irregular_init");
         }
     }
-    let inst_cap: Option<u128> = w.minter().map_err(qerr)?.and_then(|m| m.1);
+    // the cap "fixed at instantiation": what Minter reports right after instantiate, or, for an upgraded
+    // token, the cap its storage image carried (an upgrade must not change it)
+    let inst_cap: Option<u128> = if case.legacy.is_some() { legacy_cap } else { w.minter().map_err(qerr)?.and_then(|m| m.1) };
     let had_minter_at_start = w.minter().map_err(qerr)?.is_some();
 
     let mut pre = w.observe().map_err(qerr)?;
+    if case.legacy.is_some() && matches!(prop, "C01" | "C13") && pre.supply != legacy_total {
+        return Err(v(prop, "upgrade-changed-supply", format!("after migrating a pre-0.14 image: total supply is {} but the image held {}", pre.supply, legacy_total)));
+    }
+    if prop == "C02" && case.legacy.is_some() {
+        // the upgrade carried over exactly the allowances the owners had granted
+        let n = N_ACTORS as usize;
+        for o in 0..n {
+            for x in 0..n {
+                let want = granted.get(&(o, x)).cloned().unwrap_or(Uint256::zero());
+                if Uint256::from(pre.allow[o][x].0) != want {
+                    return Err(v(prop, "upgrade-changed-allowance", format!("after migrating a pre-0.14 image: allowance of owner actor{o} for spender actor{x} is {} but the owner had granted {}", pre.allow[o][x].0, want)));
+                }
+            }
+        }
+    }
     check_state(prop, &w, &pre, inst_cap, "after instantiate")?;
     let mut minter_gone = pre.minter.is_none();
     let mut handovers = 0u32;
@@ -617,7 +655,7 @@ pub fn run_case(prop: &str, case: &Case, ctx: &mut CaseCtx) -> Result<(), Violat
         let n = N_ACTORS as usize;
         let rc = |i: u8| -> (String, Option<usize>) {
             let i = i as usize % N_RCPT as usize;
-            (w.rcpts[i].clone(), if i < n { Some(i) } else { None })
+            (w.rcpts[i].clone(), if i < N_HOLDERS as usize { Some(i) } else { None })
         };
         let step: Step = match op {
             Op::Advance { blocks, secs } => {
@@ -667,6 +705,7 @@ pub fn run_case(prop: &str, case: &Case, ctx: &mut CaseCtx) -> Result<(), Violat
                 let (o, sp) = resolve_pair(pair, &pre);
                 Step { kind: Kind::BurnFrom, sender: sp, owner: Some(o), target: None, amount: resolve(amt, &pre, inst_cap, Some(o), Some((o, sp))), exp: None, payload: vec![] }
             }
+            Op::Side { by, arg, .. } => Step { kind: Kind::Side, sender: *by as usize % n, owner: None, target: Some(rc(*arg % N_ACTORS)), amount: 0, exp: None, payload: vec![] },
             Op::UpdateMinter { by, new } => Step { kind: Kind::UpdateMinter, sender: resolve_who(by, &pre, &w), owner: None, target: new.map(rc), amount: 0, exp: None, payload: vec![] },
         };
         let amount = Uint128::new(step.amount);
@@ -683,8 +722,27 @@ pub fn run_case(prop: &str, case: &Case, ctx: &mut CaseCtx) -> Result<(), Violat
             Kind::SendFrom => Cw20ExecuteMsg::SendFrom { owner: owner_s.clone(), contract: tgt.clone(), amount, msg: Binary::from(step.payload.clone()) },
             Kind::BurnFrom => Cw20ExecuteMsg::BurnFrom { owner: owner_s.clone(), amount },
             Kind::UpdateMinter => Cw20ExecuteMsg::UpdateMinter { new_minter: step.target.as_ref().map(|t| t.0.clone()) },
+            Kind::Side => {
+                let what = match op {
+                    Op::Side { what, .. } => *what % 5,
+                    _ => 0,
+                };
+                match what {
+                    0 => Cw20ExecuteMsg::UpdateMarketing { project: Some(format!("project {step_no}")), description: Some(String::new()), marketing: None },
+                    1 => Cw20ExecuteMsg::UpdateMarketing { project: None, description: None, marketing: Some(tgt.clone()) },
+                    2 => Cw20ExecuteMsg::UploadLogo(cw20::Logo::Url("https://example.org/logo.png".into())),
+                    _ => Cw20ExecuteMsg::UploadLogo(cw20::Logo::Embedded(cw20::EmbeddedLogo::Svg(Binary::from(br#"<?xml version="1.0"?><svg xmlns="http://www.w3.org/2000/svg"></svg>"#.to_vec())))),
+                }
+            }
         };
-        let res = w.exec(step.sender as u8, msg);
+        let is_upgrade = matches!(op, Op::Side { what, .. } if *what % 5 == 4);
+        let res = if is_upgrade {
+            let from = ["1.1.0", "0.16.0", "0.14.2", "2.0.0"][step.sender % 4];
+            L_VERSION.save(&mut w.d.store, &LegacyContractVersion { contract: "crates.io:cw20-base".into(), version: from.into() }).unwrap();
+            w.d.tx(|deps, env| cw20_base::contract::migrate(deps, env, MigrateMsg {}))
+        } else {
+            w.exec(step.sender as u8, msg)
+        };
         let ok = res.is_ok();
         let post = w.observe().map_err(qerr)?;
         let kname = format!("{:?}", step.kind);
@@ -1156,6 +1214,11 @@ fn check_c13_step(
             return Err(v(prop, "mint-by-non-minter", format!("{at}: supply rose by a Mint whose sender is not the registered minter {:?}", pre.minter)));
         }
     }
+    // tokens come into existence only by a Mint: the holdings of all accounts together never grow otherwise
+    let total_of = |o: &Obs| o.balances.iter().fold(Uint256::zero(), |a, b| a + Uint256::from(*b));
+    if total_of(post) > total_of(pre) && !(ok && matches!(s.kind, Kind::Mint)) {
+        return Err(v(prop, "tokens-created-without-mint", format!("{at}: the accounts together hold {} after the call, {} before, and the call is not a successful Mint", total_of(post), total_of(pre))));
+    }
     if ok && matches!(s.kind, Kind::Mint) && !is_minter {
         return Err(v(prop, "mint-by-non-minter", format!("{at}: Mint succeeded for a sender that is not the registered minter {:?}", pre.minter)));
     }
@@ -1247,7 +1310,7 @@ fn d_actor(u: &mut arbitrary::Unstructured) -> u8 {
     arb_below(u, N_ACTORS as usize) as u8
 }
 fn d_rcpt(u: &mut arbitrary::Unstructured) -> u8 {
-    if arb_bool(u, 1, 24) {
+    if arb_bool(u, 1, 12) {
         N_ACTORS + arb_below(u, (N_RCPT - N_ACTORS) as usize) as u8
     } else {
         d_actor(u)
@@ -1309,7 +1372,7 @@ pub fn decode_case(prop: &str, u: &mut arbitrary::Unstructured) -> Case {
     } else {
         None
     };
-    let legacy = if prop == "C19" && arb_bool(u, 2, 5) {
+    let legacy = if (prop == "C19" && arb_bool(u, 2, 5)) || (prop != "C19" && arb_bool(u, 1, 8)) {
         let n = arb_below(u, 12);
         let mut v = vec![];
         for _ in 0..n {
@@ -1338,9 +1401,10 @@ pub fn decode_case(prop: &str, u: &mut arbitrary::Unstructured) -> Case {
             10 => Op::SendFrom { pair: d_pair(u), to: d_rcpt(u), amt: d_amt(u), payload: d_payload(u) },
             11 => Op::BurnFrom { pair: d_pair(u), amt: d_amt(u) },
             12 => Op::UpdateMinter { by: d_who(u), new: if arb_bool(u, 3, 4) { Some(d_rcpt(u)) } else { None } },
-            _ => Op::Advance { blocks: arb_below(u, 4) as u8, secs: arb_below(u, 40) as u16 },
+            _ => if arb_bool(u, 1, 3) { Op::Side { by: d_actor(u), what: arb_below(u, 5) as u8, arg: d_actor(u) } } else { Op::Advance { blocks: arb_below(u, 4) as u8, secs: arb_below(u, 40) as u16 } },
         };
         ops.push(op);
     }
-    Case { init: Init { accounts, mint }, legacy, legacy_version, ops }
+    let marketing = if arb_bool(u, 3, 5) { Some(d_actor(u)) } else { None };
+    Case { init: Init { accounts, mint, marketing }, legacy, legacy_version, ops }
 }
